@@ -753,9 +753,10 @@ Definition c06h_run (which : Z) (case obs : sx) : verdict :=
                 jobProvider.doneJob(job); continue);
               5 as 2, then the watcher's write notification (tryResumeJobAndUnlock) and a pass that finds readers only:
                 the file is read as in a first pass (curOffset and the file position are still 0);
-              6 as 2, then a maintenance tick, remove_after off: maintenanceJob does not resume a compressed job
-                (stat.Size() != offset && !job.isCompressed), it re-opens the file and reports "nothing changed" (4);
-              7 as 2, then a maintenance tick with remove_after expired (see c06z_pred)
+              6 as 2, then a maintenance tick, remove_after off: maintenanceJob resumes a compressed job that never
+                reached the end of its file (EOF time stamp 0; /repo fix d780bcb) and reports "resumed" (2); the pass
+                that follows finds readers only and reads the file as in a first pass;
+              7 as 6 with remove_after expired: the same, the file is NOT removed (nothing of it had been read)
      obs  = ((emit ...) curOffset #tail shouldSkip done [result [gone]])
             emit as in which 0 (which 6) / which 1 (which 7); done = Job.isDone at the end; result = what the tick of
             scenario 6 | 7 returned; gone = the file is removed (scenario 7)                                          *)
@@ -798,19 +799,23 @@ Definition z_pass (k : zcase) : Z * list emit * wst :=
 Definition z_lsof_of_sx (s : sx) : Z :=
   match s with SL [_; _; _; _; _; SZ l] => l | _ => 0 end.
 
-(* the file is read in this case (in its only pass, or in the pass after the write notification) *)
-Definition z_reads (l : Z) : bool := negb ((l =? 2) || (l =? 6) || (l =? 7)).
+(* the file is read in this case (in its only pass, or in the pass after the write notification / the maintenance
+   tick that resumed the job) *)
+Definition z_reads (l : Z) : bool := negb (l =? 2).
+
+(* what the observation carries behind the done flag: the result of the tick (6 | 7: resumed) and "gone" (7: no) *)
+Definition z_extra (l : Z) : list sx :=
+  if l =? 6 then [SZ 2] else if l =? 7 then [SZ 2; of_bool false] else [].
 
 Definition c06z_model (which : Z) (k : zcase) (l : Z) : sx :=
   if z_reads l then
     let '(L, es, st) := z_pass k in
     (* Job.seek set curOffset to 0 and the skipped bytes are not added to it: curOffset = bytes read after the skipping *)
-    SL [SL (map (sx_of_emit which (z_cfg k)) es); SZ (cur st - L); SB (tail st); of_bool (skip st); of_bool true]
+    SL ([SL (map (sx_of_emit which (z_cfg k)) es); SZ (cur st - L); SB (tail st); of_bool (skip st); of_bool true]
+        ++ z_extra l)
   else
-    (* being written: nothing is read, the job is done; the tick of scenario 6 re-opens the file and changes nothing
-       (4); the tick of scenario 7 must not remove a file of which nothing was read: "left alone" as well *)
-    SL ([SL []; SZ 0; SB []; of_bool false; of_bool true]
-        ++ (if l =? 6 then [SZ 4] else if l =? 7 then [SZ 4; of_bool false] else [])).
+    (* being written: nothing is read, the job is done *)
+    SL [SL []; SZ 0; SB []; of_bool false; of_bool true].
 
 (* the property on what the implementation did: the lines of the file that end behind the minimum saved offset are
    handed over exactly once, whole, in order, with their offsets in the decompressed stream (what is handed over with an
@@ -842,8 +847,8 @@ Definition c06z_pred (which : Z) (k : zcase) (l : Z) (obs : sx) : bool :=
       let none := match es with [] => true | _ :: _ => false end in
       match as_bool dn with
       | Some done =>
-          if z_reads l then full && done && match extra with [] => true | _ :: _ => false end
-          else if l =? 2 then none && done && match extra with [] => true | _ :: _ => false end
+          if l =? 2 then none && done && match extra with [] => true | _ :: _ => false end
+          else if negb ((l =? 6) || (l =? 7)) then full && done && match extra with [] => true | _ :: _ => false end
           else if l =? 6 then
             match extra with
             | [SZ r] => done && (((r =? 4) && none) || ((r =? 2) && full))
